@@ -221,6 +221,22 @@ def run_foreign_bytes(np, case, ctx):
 	elif mode == 'gzip':
 		import gzip
 		data = gzip.compress(case['data'].encode('latin-1'))
+	elif mode == 'magic_at_offset':
+		# the HDF5 signature is also recognised by the HDF5 library at offsets 512, 1024, ... (user block); a file that merely
+		# CONTAINS it there - text followed by junk, or a tar archive whose first member is a signature file - is not a signature file
+		off = [512, 1024, 2048, 4096][case['n'] % 4]
+		head = (case['data'].encode('latin-1') + b'\n' + b'#' * off)[:off]
+		tail = _valid_file_bytes(np, ctx) if case['n'] % 3 else b'\x89HDF\r\n\x1a\n' + bytes(random.Random(case['n']).randrange(256) for _ in range(300))
+		data = head + tail
+	elif mode == 'tar_of_sigfile':
+		import io, tarfile
+		buf = io.BytesIO()
+		with tarfile.open(fileobj=buf, mode='w', format=[tarfile.USTAR_FORMAT, tarfile.GNU_FORMAT][case['n'] % 2]) as tf:
+			blob = _valid_file_bytes(np, ctx)
+			ti = tarfile.TarInfo('refs.gs')
+			ti.size = len(blob)
+			tf.addfile(ti, io.BytesIO(blob))
+		data = buf.getvalue()
 	else:
 		raise ValueError(mode)
 	path = ctx.fresh_path(case.get('ext', '.gs'))
@@ -307,7 +323,7 @@ def gen_case(draw, tier):
 		        'path_as': draw(st.sampled_from(['str', 'Path'])), 'rewrite': draw(st.sampled_from([False, False, True])), 'fname': draw(st.sampled_from(['.gs', '.h5', ' with space.gs', '-ünï.gs', '.GS', '']))}
 	ext = draw(st.sampled_from(['.gs', '.h5', '.txt', '.fasta', '']))
 	if which == 'foreign_bytes':
-		mode = draw(st.sampled_from(['raw', 'raw', 'valid_prefix', 'magic_plus', 'valid_truncated', 'valid_corrupt', 'gzip']))
+		mode = draw(st.sampled_from(['raw', 'raw', 'valid_prefix', 'magic_plus', 'valid_truncated', 'valid_corrupt', 'gzip', 'magic_at_offset', 'tar_of_sigfile']))
 		if mode in ('raw', 'gzip'):
 			data = draw(st.one_of(st.just(''), st.text(max_size=60).map(lambda s: s.encode('utf-8').decode('latin-1')), FASTA,
 			                      st.binary(max_size=200).map(lambda b: b.decode('latin-1')),
@@ -315,6 +331,8 @@ def gen_case(draw, tier):
 			return {'kind': 'foreign_bytes', 'mode': mode, 'data': data, 'ext': ext}
 		if mode == 'valid_prefix':
 			return {'kind': 'foreign_bytes', 'mode': mode, 'n': draw(st.integers(0, 7)), 'ext': ext}
+		if mode == 'magic_at_offset':
+			return {'kind': 'foreign_bytes', 'mode': mode, 'n': draw(st.integers(0, 1000)), 'data': draw(st.text(alphabet='abc >\n', max_size=40)), 'ext': ext}
 		if mode == 'magic_plus':
 			return {'kind': 'foreign_bytes', 'mode': mode, 'data': draw(st.binary(max_size=300)).decode('latin-1'), 'ext': ext}
 		return {'kind': 'foreign_bytes', 'mode': mode, 'n': draw(st.integers(0, 10 ** 6)), 'ext': ext}
